@@ -248,6 +248,10 @@ func unmarshalData(data []byte) (map[string]any, error) {
 
 // decode decodes the configuration map into a configDefinition.
 func decode(cm map[string]any) (*definition, error) {
+	// The decoder reports unused keys and panics on one that is not a string.
+	if err := assertStringKeys(cm); err != nil {
+		return nil, err
+	}
 	c := new(definition)
 	md, _ := mapstructure.NewDecoder(&mapstructure.DecoderConfig{
 		ErrorUnused: true,
@@ -263,4 +267,33 @@ func decode(cm map[string]any) (*definition, error) {
 func merge(dst, src *DAG) error {
 	return mergo.Merge(dst, src, mergo.WithOverride,
 		mergo.WithTransformers(&mergeTransformer{}))
+}
+
+// assertStringKeys checks that every map key in the decoded YAML document is
+// a string.
+func assertStringKeys(value any) error {
+	switch v := value.(type) {
+	case map[string]any:
+		for _, elem := range v {
+			if err := assertStringKeys(elem); err != nil {
+				return err
+			}
+		}
+	case map[any]any:
+		for key, elem := range v {
+			if _, ok := key.(string); !ok {
+				return fmt.Errorf("%w: %v", errInvalidKeyType, key)
+			}
+			if err := assertStringKeys(elem); err != nil {
+				return err
+			}
+		}
+	case []any:
+		for _, elem := range v {
+			if err := assertStringKeys(elem); err != nil {
+				return err
+			}
+		}
+	}
+	return nil
 }
